@@ -14,7 +14,7 @@ use serde_json::json;
 use crate::c17::{driver, tmp_dir};
 use crate::common::violation;
 
-fn image(ft: FatType) -> Vec<u8> {
+pub fn image(ft: FatType) -> Vec<u8> {
     if ft == FatType::Fat32 {
         // builder-made: the free clusters are the lowest ones, so allocation scans stay short
         let mut s = harness::builder::MkSpec::new(32);
